@@ -18,7 +18,7 @@ RULE = ('quick: every outline AST with <=4 nodes and nesting <=2 over {step, if/
         'scripts to length 12; non-trivial when at least one predicate or >=2 calls were made')
 RULE += ('; also: steps that register awaitables, a description of the outline asked for first, decorated step functions, chains with a required output nobody emits')
 ASSUMPTIONS = ['predicates return real booleans', 'ToContext returns are C10\'s business', 'interpreter written from the property statement']
-REQUIRED = ['runs', 'ended/return', 'ended/value', 'ended/end', 'nodes/if', 'nodes/while', 'nodes/ret', 'calls_compared', 'falsy_stop_values', 'steps_registering_awaitables', 'value_with_awaitable', 'described_first', 'required_output_missing', 'decorated_steps_called', 'non_bool_predicates', 'outline_names_base_functions', 'empty_context_assignments', 'awaitable_stop_values', 'mapping_stop_values', 'one_predicate_for_a_chain']
+REQUIRED = ['derived_from_a_used_class', 'runs', 'ended/return', 'ended/value', 'ended/end', 'nodes/if', 'nodes/while', 'nodes/ret', 'calls_compared', 'falsy_stop_values', 'steps_registering_awaitables', 'value_with_awaitable', 'described_first', 'required_output_missing', 'decorated_steps_called', 'non_bool_predicates', 'outline_names_base_functions', 'empty_context_assignments', 'awaitable_stop_values', 'mapping_stop_values', 'one_predicate_for_a_chain']
 EXHAUSTIVE = {'quick': True, 'thorough': False}
 BOUNDS = {'quick': 'ASTs <=4 nodes depth<=2, predicate scripts <=4, exhaustive after de-duplication', 'thorough': '+5-node ASTs sampled, 4000 random ASTs depth<=4'}
 STOPVALS = [0, '', False, 7]
@@ -75,6 +75,9 @@ def gen_cases(tier, seed):
                     if ns and len(seen) % 5 == 3:
                         # the same run in a subclass that overrides some of the steps while the outline names the base class's functions
                         yield {'ast': ast, 'preds': p[:np] if np <= len(p) else p, 'rets': r[:ns], 'shadowed': True}
+                    if len(seen) % 7 == 5:
+                        # the same run in a class derived from a concrete work chain class that was instantiated and run before
+                        yield {'ast': ast, 'preds': p[:np] if np <= len(p) else p, 'rets': r[:ns], 'derived': True}
                     if len(seen) % 4 == 1:
                         # the same run in a chain that declares a required output nobody emits: unsuccessful, same result
                         yield {'ast': ast, 'preds': p[:np] if np <= len(p) else p, 'rets': r[:ns], 'must': True}
@@ -122,7 +125,20 @@ def run_case(case):
     if isinstance(exp_result, str) and exp_result in outlines.SPECIAL_STOPS and how == 'value':
         obs['awaitable_stop_values' if exp_result == '@AW' else 'mapping_stop_values'] = 1
         exp_result = outlines.SPECIAL_STOPS[exp_result]
-    cls = outlines.outline_class(ast, must=bool(case.get('must')), shadowed=bool(case.get('shadowed')))
+    if case.get('derived'):
+        # (the base class first: created and run to its end in a loop of its own)
+        base = outlines.outline_class(outlines.BASE_AST)
+        with Driver(2000) as drv0:
+            b = base(inputs={'preds': [True], 'rets': []}, loop=drv0.loop)
+            drv0.loop.create_task(b.step_until_terminated())
+            try:
+                drv0.pump()
+            except BudgetExceeded:
+                pass
+        cls = outlines.outline_class(ast, derived=True)
+    else:
+        cls = outlines.outline_class(ast, must=bool(case.get('must')), shadowed=bool(case.get('shadowed')))
+    obs['derived_from_a_used_class'] = int(bool(case.get('derived')))
     obs['outline_names_base_functions'] = int(bool(case.get('shadowed')))
     obs['empty_context_assignments'] = int(bool(case.get('empty_tc')))
     obs['required_output_missing'] = int(bool(case.get('must')))
